@@ -90,6 +90,16 @@ def b_isinstance(ex, x, t):
     return False
 
 
+def _hex_spec(spec):
+    """'X'/'x' -> 0 (natural width), '0NX' -> N, anything else -> None"""
+    sp = spec.lower()
+    if sp == 'x':
+        return 0
+    if sp.endswith('x') and sp.startswith('0') and sp[1:-1].isdigit():
+        return int(sp[1:-1])
+    return None
+
+
 def b_int(ex, x=0, base=None):
     x = ex.concretize(x)
     if base is not None:
@@ -109,6 +119,25 @@ def b_int(ex, x=0, base=None):
                         except ValueError as e:
                             raise PyRaise(make_exc('ValueError', str(e)))
                 return total
+            if base == 16 and x.parts and all(isinstance(p, Fmt) and _hex_spec(p.spec) is not None for p in x.parts):
+                # A2 generalised: a run of hex tokens of fixed ('0NX') or natural ('X') width; the number of digits of a token of
+                # natural width depends on its value (case split on 16^k thresholds, values up to 32 bits)
+                acc = 0
+                for p in x.parts:
+                    width = _hex_spec(p.spec)
+                    v = p.value
+                    neg = mk_bool(int_term(v) < 0) if isinstance(v, Sym) else v < 0
+                    if neg is True or (neg is not False and ex.truth(neg)):
+                        raise Unsupported('int() of a formatted negative number')
+                    cases = []
+                    for k in range(1, 9):
+                        kk = max(k, width)
+                        cases.append((v < 16 ** k, acc * (16 ** kk) + v))
+                    res = acc * (16 ** max(9, width)) + v
+                    for c, val in reversed(cases):
+                        res = ite(c, val, res) if isinstance(c, Sym) else (val if c else res)
+                    acc = res
+                return acc
             raise Unsupported(f'int({x!r}, {base})')
         if hasattr(x, 'sym_int'):
             return x.sym_int(ex, base)
@@ -332,6 +361,7 @@ class ModuleGlobals:
 
 
 def b_open(ex, *a, **kw):
+    ex.ghost.setdefault('open_calls', []).append((list(a), dict(kw)))
     return Opaque('file')
 
 
@@ -471,6 +501,8 @@ def b_isclose(ex, a, b, rel_tol=1e-09, abs_tol=0.0):
 
 
 EXT_HOOKS['math.isclose'] = Builtin('math.isclose', b_isclose)
+EXT_HOOKS['os.path.dirname'] = Builtin('os.path.dirname', lambda ex, p: __import__('os').path.dirname(p) if isinstance(p, str) else Opaque('dirname'))
+EXT_HOOKS['os.makedirs'] = Builtin('os.makedirs', lambda ex, *a, **k: None)
 EXT_HOOKS['contextlib.suppress'] = Builtin('contextlib.suppress', lambda ex, *classes: ('contextlib.suppress', classes))
 
 
